@@ -495,12 +495,22 @@ def merge_harness_records(results, verdict, max_samples=8, only_prefix=None):
     forwards violations; returns (counters, distinct_set, samples)."""
     counters, distinct, samples = {}, set(), []
     for r in results:
+        last_crash = None
         for rec in r["recs"]:
             t = rec.get("t")
-            if t == "viol":
+            if t == "crash":
+                last_crash = rec      # a forked child's crash record (the parent lives on and reports the child's death next)
+            elif t == "viol":
                 if only_prefix and not rec["key"].startswith(only_prefix):
                     continue
-                verdict.violation(rec["key"], rec.get("what", ""), rec.get("witness"))
+                key, wit, what = rec["key"], rec.get("witness"), rec.get("what", "")
+                if "client-crashes" in key and last_crash is not None:
+                    fn = bt_function(last_crash.get("bt"))
+                    key = "%s:sig%s:%s" % (key, last_crash.get("sig"), fn)
+                    what = "%s: signal %s in %s" % (what, last_crash.get("sig"), fn)
+                    wit = dict(wit or {}, crash=last_crash)
+                    last_crash = None
+                verdict.violation(key, what, wit)
             elif t == "d":
                 distinct.update(rec.get("k", []))
             elif t == "sample":
